@@ -169,6 +169,9 @@ func (a *agg) record(res *txResult) {
 			a.n["ops_executed:"+opsString(1<<i)]++
 		}
 	}
+	if s.Target == tFactory && s.Fact >= fDriver0 && res.status == "ok" && res.ops&(opSDOther|opSDSelf) != 0 {
+		a.n[fmt.Sprintf("driver_runs_completed:%d-selfdestructs", (s.Fact-fDriver0)/3+1)]++
+	}
 	if s.Target == tFactory {
 		a.n["factory_applied:"+factoryName(s.Fact)]++
 		a.combos[factoryName(s.Fact)+"/"+factoryGasNames[s.Gas]+fmt.Sprintf("/via-call=%v", s.ViaCal)] = struct{}{}
@@ -250,9 +253,10 @@ func main() {
 		"SELFDESTRUCT to another account, INVALID (burn all gas), SSTORE set, SSTORE clear (refund), STATICCALL-into-writer then write, CALL(each of the 9 one-action leaf contracts) with value 3}; P and the "+
 		"leaves hold value and a set storage slot in the pre-state. Stated exceptions (all counted): points whose 'balance-fee' would be negative are skipped; points that the checker's reference "+
 		"pre-check classifies as rejected are enumerated for creations with one-action init codes and for calls into programs of <= 2 actions only (a rejection never reads the target). "+
-		"Factory family (same path): call(F) and call(wrapper that CALLs F with all gas) for 11 fixed factories: F = {CREATE, CREATE2} x init code {empty, deploying one byte, burning (INVALID), reverting}, endowment 1, plus "+
-		"CREATE2 twice with the same salt (empty / deploying init code: the second collides) and CREATE into an address occupied in the genesis; x fork x sender x value{0,1} x gasLimit{intrinsic+40000, 200000, 8*10^6, 2*10^7} x "+
-		"price{0,1,10^9}, correct nonce, pool 25*10^6 (2112 points); on the direct calls into the 8 single-creation factories the gas used must equal the figure the checker computes from the gas schedule; every pre-existing "+
+		"Factory family (same path): call(F) and call(wrapper that CALLs F with all gas) for 20 fixed contracts: F = {CREATE, CREATE2} x init code {empty, deploying one byte, burning (INVALID), reverting}, endowment 1, plus "+
+		"CREATE2 twice with the same salt (empty / deploying init code: the second collides), CREATE into an address occupied in the genesis, and 9 drivers that CALL a self-destructing contract k in {1,2,3} times with value 1000 "+
+		"(beneficiary another EOA / the caller / the contract itself); 20 contracts x fork x sender x value{0,1} x gasLimit{intrinsic+40000, 200000, 8*10^6, 2*10^7} x "+
+		"price{0,1,10^9}, correct nonce, pool 25*10^6 (3840 points); on the direct calls into the 8 single-creation factories the gas used must equal the figure the checker computes from the gas schedule; every pre-existing "+
 		"contract's nonce must advance by exactly the number of creation steps it performed in surviving frames. "+
 		"Collision family (same path): creation transactions from two senders whose CreateAddress(sender, nonce) is occupied in the genesis (by an account with code / with only a non-zero nonce) x fork x nonce{cur-1,cur,cur+1} x "+
 		"value{0,1} x gasLimit{intrinsic, intrinsic+30000, 10^6} x price{0,1,10^9} x init code{[SSET],[CREATE]} (432 points). "+
@@ -554,6 +558,9 @@ func main() {
 	r.Require(r.Get("block_creation_collisions_executed") > 0, "no block executed a creation into an occupied address")
 	r.Require(r.Get("block_same_tx_twice_second_refused_nonce_too_low") > 0, "no block offered an executed transaction a second time")
 	r.Require(r.Get("consecutive_block_cases_first_executed") > 0, "no pair of consecutive blocks offered an executed transaction again")
+	for k := 1; k <= 3; k++ {
+		r.Require(r.Get(fmt.Sprintf("driver_runs_completed:%d-selfdestructs", k)) > 0, fmt.Sprintf("no driver completed %d calls into a self-destructing contract", k))
+	}
 	r.Require(r.Get("factory_exact_gas_figures_checked") > 0, "no exact gas figure was checked")
 	r.Require(r.Get("applytx_create_steps_frame_gas_checked") > 0, "no CREATE/CREATE2 step had its frame gas accounting checked")
 	r.Require(r.Get("applytx_value_destroyed_by_selfdestruct_to_self") > 0, "no execution destroyed value by self-destruct-to-self")
